@@ -32,7 +32,7 @@ func (g *G) idPool(adversarial bool) []string {
 			g.W.Excluded["C08-invalid-utf8-export"]++
 		}
 		if !g.W.Opt.Open["C12-nul-aliasing"] {
-			ids = append(ids, "a\x00b", "\x00")
+			ids = append(ids, "a\x00b", "\x00", "\x00a")
 		} else {
 			g.W.Excluded["C12-nul-aliasing"]++
 		}
